@@ -151,3 +151,61 @@ def loop_iterations_all_call(b, call_bbs):
                 ok = False
         res.append((header, ok))
     return res
+
+
+_always_err_cache = {}
+
+
+def always_err(F, fid, _depth=0):
+    """function whose every normal return assigns an Err (or which diverges): e.g. `fail(..)` helpers"""
+    if fid in _always_err_cache:
+        return _always_err_cache[fid]
+    f = F.fns.get(fid)
+    if f is None or _depth > 4:
+        return False
+    _always_err_cache[fid] = False
+    b = Body(f)
+    okb, errb = ret_kind_blocks(b)
+    res = True
+    if okb:
+        res = False
+    else:
+        for bi, t in b.calls():
+            if t["dest"]["l"] == 0 and not t["dest"]["p"]:
+                if "from_residual" in (callee_name(t) or ""):
+                    continue
+                cid = callee_id(t)
+                if cid == fid or not always_err(F, cid, _depth + 1):
+                    res = False
+        if not errb:
+            res = False
+    _always_err_cache[fid] = res
+    return res
+
+
+def infeasible_blocks(F, b):
+    """blocks only entered on the Continue edge of `always_err_call(..)?` — never executed"""
+    out = set()
+    for bj, u in b.calls():
+        if (callee_name(u) or "").endswith("Try>::branch") and u["args"] and u["t"] is not None:
+            inner = b.def_call(u["args"][0])
+            if inner is not None:
+                cid = callee_id(inner)
+                impls = [cid] if cid in F.fns else [g.id for g in F.fns.values() if g.trait_item == cid]
+                if impls and all(always_err(F, c) for c in impls):
+                    sw = b.term(u["t"])
+                    if sw["k"] == "switch":
+                        for v, tgt in sw["arms"]:
+                            if v == 0 and len(b.preds[tgt]) == 1:
+                                out.add(tgt)
+    return out
+
+
+def pruned_body(F, b):
+    """a Body over the same MIR whose CFG omits infeasible blocks (dominators are recomputed on it)"""
+    bad = infeasible_blocks(F, b)
+    if not bad:
+        return b
+    nb = Body(b.fn, b.b)
+    nb._succ = [[x for x in ss if x not in bad] for ss in b.succs]
+    return nb
